@@ -59,6 +59,8 @@ def substitute(items):
         for v in (list(it.ops.values()) if it.kind == 'insn' else list(it.ops) if it.kind == 'pseudo' else [it.value] if it.kind in ('short', 'pack') else []):
             if isinstance(v, ir.V):
                 offc_names(v)
+            elif isinstance(v, str) and v in consts:
+                keep.add(v)     # a constant as the target of a pseudo-instruction
     for it in items:
         if it.kind == 'const':
             if it.name in keep:
